@@ -166,6 +166,9 @@ func runC02(c *Cfg) {
 	close(next)
 	wg.Wait()
 	c.Count(fmt.Sprintf("workers-started/%d", pool.started))
+	if pool.skipped > 0 {
+		c.Count(fmt.Sprintf("worker-deaths-not-confirmed-after-8-confirmed/%d", pool.skipped))
+	}
 
 	// ---- the CLI entry point on a sample ---------------------------------------------
 	nCLI := c.Pick(130, 1000)
@@ -186,6 +189,12 @@ func c02RunCase(pool *c02Pool, cs *c02Case, cpuMs int) (*c02Failure, string) {
 	o := pool.Ask(rq)
 	fail := func(kind, detail string) *c02Failure {
 		return &c02Failure{kind: kind, detail: detail, src: cs.src, origin: cs.origin + " [" + cs.kind + "]"}
+	}
+	if strings.HasPrefix(o.Kind, "skipped:") {
+		pool.mu.Lock()
+		pool.skipped++
+		pool.mu.Unlock()
+		return nil, "died-unconfirmed"
 	}
 	if strings.HasPrefix(o.Kind, "unconfirmed:") {
 		// the worker died or hung but the case alone in a fresh worker was fine: not a
@@ -294,6 +303,14 @@ func c02RunCLI(c *Cfg, sample []*c02Case) []*c02Failure {
 			dir := filepath.Join(c.Out, "cli", fmt.Sprint(w))
 			os.MkdirAll(dir, 0o777)
 			for cs := range ch {
+				mu.Lock()
+				settled := len(out) >= 8
+				mu.Unlock()
+				if settled {
+					// the verdict is settled; crashing CLI runs cost tens of CPU seconds each
+					c.Count("cli/skipped-after-8-failures")
+					continue
+				}
 				os.WriteFile(filepath.Join(dir, "in.cue"), cs.src, 0o666)
 				for _, args := range cmds {
 					code, so, se, to := c02CLIOnce(dir, args, timeout)
